@@ -445,7 +445,7 @@ def nontrivial(case):
 def jsonable(c):
     c = dict(c); c.pop('expected', None); return c
 
-def warm_up():
+def warm_up(render_first=True):
     """What an application with huge_tree enabled does before anything else: render a transformed reply. Whatever that
     creates or caches inside xml_ must not change how to_ele / to_xml behave afterwards."""
     from ncclient import xml_
@@ -454,7 +454,8 @@ def warm_up():
     try:
         for prof in ('junos', 'alu'):
             dh = make_device_handler({'name': prof})
-            r = RPCReply('<rpc-reply xmlns="urn:ietf:params:xml:ns:netconf:base:1.0" message-id="1">\n <data> <a xmlns="urn:x"> t </a>\n </data>\n</rpc-reply>', huge_tree=True)
+            # render_first: the reply was parsed by an ordinary session, so the first huge_tree use in the process is the rendering
+            r = RPCReply('<rpc-reply xmlns="urn:ietf:params:xml:ns:netconf:base:1.0" message-id="1">\n <data> <a xmlns="urn:x"> t </a>\n </data>\n</rpc-reply>', huge_tree=not render_first)
             r.parse()
             n = xml_.NCElement(r, dh.transform_reply(), huge_tree=True)
             n.tostring; n.data_xml; n.find('.//a')
@@ -462,7 +463,7 @@ def warm_up():
         pass
 
 def run(ctx):
-    warm_up()
+    warm_up(render_first=(ctx.seed % 2 == 0))
     import sys
     sys.setrecursionlimit(20000)
     cases = []
